@@ -395,7 +395,10 @@ type HostMutCase struct {
 	Src string `json:"src"`
 }
 
-var c07HostMut = core.Mon(c07, "host-mutates-its-argument", func(w *core.W, c *HostMutCase) {
+var c07HostMut = core.Mon(c07, "host-mutates-its-argument", func(w *core.W, c *HostMutCase) { hostMutCheck(w, "C07", c) })
+var c20HostMut = core.Mon(c20, "host-mutates-its-argument", func(w *core.W, c *HostMutCase) { hostMutCheck(w, "C20", c) })
+
+func hostMutCheck(w *core.W, id string, c *HostMutCase) {
 	build := func(mutating bool) map[string]interface{} {
 		return map[string]interface{}{
 			"xs": []interface{}{3, 1, 2}, "ss": []string{"c", "a", "b"}, "mm": map[string]interface{}{"x": 1, "y": 2}, "nest": map[string]interface{}{"l": []interface{}{9, 8}},
@@ -442,14 +445,14 @@ var c07HostMut = core.Mon(c07, "host-mutates-its-argument", func(w *core.W, c *H
 	before := frameSnapshot(data)
 	loud, e2, p2, pv2 := resolveIn(data, c.Src)
 	if o1, o2 := outcome(quiet, e1, p1, pv1), outcome(loud, e2, p2, pv2); o1 != o2 {
-		w.Violation("host-mutates-its-argument", "C07/host-function-reached-the-original", c, clipS(o1, 300), clipS(o2, 300),
+		w.Violation("host-mutates-its-argument", id+"/host-function-reached-the-original", c, clipS(o1, 300), clipS(o2, 300),
 			"the same formula with host functions that modify their slice/map parameters gives another result: they were handed the caller's (or the local's) own container: "+c.Src)
 		return
 	}
 	if after := frameSnapshot(data); after != before {
-		w.Violation("host-mutates-its-argument", "C07/caller-data-modified", c, "unchanged", firstDiff(before, after), "a host function modifying its parameter changed the caller's data: "+c.Src)
+		w.Violation("host-mutates-its-argument", id+"/caller-data-modified", c, "unchanged", firstDiff(before, after), "a host function modifying its parameter changed the caller's data: "+c.Src)
 	}
-})
+}
 
 var hostMutFormulas = []string{"scramble(xs), xs", "[scramble(xs), xs, scramble(xs), xs]", "$a = [3, 1, 2], scramble($a), $a", "$a = xs, scramble($a), [$a, xs]", "prune(mm), mm", "prune(this), [xs, mm]",
 	"$m = mm, prune($m), [$m, mm]", "prune(nest), nest.l", "scramble(nest.l), nest", "scrambles(ss), ss", "scrambles(['q', 'r']), ss", "variadic(xs...), xs", "$a = [1, 2], variadic($a...), $a", "variadic(1, 2), xs",
